@@ -238,20 +238,35 @@ def _cfg(**kw):
     base["unsorted_p"] = 6
     base["twin_entry_p"] = 6
     base["duck_instruments"] = True
+    base["same_bar_p"] = 6
     base["reuse_p"] = 6
     base["share_instruments"] = True
     base.update(kw)
     return SG.Cfg(**base)
 
 
+def _many_tracks(k):
+    """a composition of k short tracks (the track count of the header is a 16-bit number)"""
+    tracks = []
+    for i in range(k):
+        tracks.append({"name": "t%d" % i, "instr": None if i % 3 else {"kind": "midi", "nr": (i * 7) % 128, "name": ""},
+                       "bars": [{"key": "C", "meter": [2, 4], "entries": [{"v": [4, 0, 1, 1], "notes": [["C", 2 + i % 5, i % 16, 1 + (i * 11) % 127]]},
+                                                                              {"v": [4, 0, 1, 1], "notes": None}]}]})
+    return {"title": "many", "subtitle": "", "author": "", "tracks": tracks}
+
+
 def sub_comps(ctx, shard, n):
-    strat = st.fixed_dictionaries({"comp": SG.comp_st(_cfg(max_tracks=3)), "bpm": st.integers(4, 1000),
+    if shard == 0:
+        mt = [{"comp": _many_tracks(k), "bpm": 120, "repeat": 0, "via": via, "form": "pos"} for k in (9, 10, 11, 15, 16, 17, 20, 33, 100, 256, 300) for via in ("file", "data")]
+        ctx.exhaustive("compositions of many tracks", "9 .. 300 tracks x {write_Composition, get_midi_data}", len(mt))
+        ctx.enumerate("comp", check_comp, mt)
+    strat = st.fixed_dictionaries({"comp": SG.comp_st(_cfg(max_tracks=3, instruments=["none", "generic", "midi", "midi", "percussion"])), "bpm": st.integers(4, 1000),
                                    "repeat": st.sampled_from([0, 0, 1, 2, 3]), "via": st.sampled_from(["file", "data"]), "form": st.sampled_from(["pos", "pos", "kw", "default"])})
     ctx.given("comp", check_comp, strat, 150 if ctx.quick else 1000)
 
 
 def sub_tracks(ctx, shard, n):
-    strat = st.fixed_dictionaries({"track": SG.track_st(_cfg(instruments=["none", "midi", "midi", "generic"], rest_p=3)),
+    strat = st.fixed_dictionaries({"track": SG.track_st(_cfg(instruments=["none", "midi", "midi", "generic", "percussion"], rest_p=3)),
                                    "bpm": st.integers(4, 1000), "repeat": st.sampled_from([0, 0, 1, 2, 3]), "form": st.sampled_from(["pos", "pos", "kw", "default"])})
     ctx.given("track", check_track, strat, 250 if ctx.quick else 1500)
 
